@@ -395,13 +395,13 @@ MANIFEST = {
     "design_ref": "DESIGN.md 4/C14",
 }
 FINDINGS = [
-    {"status": "fixed", "key": "fails-outright:exists_elim:AttributeError:'NoneType'_object_has_no", "commit": "3f43e2d",
+    {"status": "fixed", "key": "fails-outright:exists_elim:AttributeError:'NoneType'_object_has_no", "commit": "793f072",
      "what": "exists_elim suggested for a goal that is followed by a subproof line (logic.ex_conj_distrib after cases + introduction, goal 1, "
              "fact 0) failed with AttributeError: it re-created the following lines with set_line, dropping their subproofs"},
-    {"status": "fixed", "key": "fails-outright:induction:IndexError:list_index_out_of", "commit": "debc430",
+    {"status": "fixed", "key": "fails-outright:induction:IndexError:list_index_out_of", "commit": "8f46948",
      "what": "induction suggested for a goal that is an implication (nat.add_cancel_left after revert_intro: x + y = x + z --> y = z, "
              "nat_induct on x) failed with IndexError in apply_theorem: var_induct passed the goal's own assumption as an extra case"},
-    {"status": "fixed", "key": "advertised-goal-vanished:apply_backward_step", "commit": "91a38e7",
+    {"status": "fixed", "key": "advertised-goal-vanished:apply_backward_step", "commit": "4f6782f",
      "what": "apply_tactic's trivial-closing loop revisited a gap that replace_id had removed and overwrote the next gap "
              "(set.member_singleton, goal 0.3.1, fact 0.1, disjE: advertised `y Mem {} --> y = x` vanished)"},
 ]
